@@ -23,5 +23,6 @@ CONSTANTS
   BugZeroCostHeld = FALSE
   SplitOnlyAtEnqueue = FALSE
   DropOnClose = FALSE
+  WithSettings = TRUE
 CONSTRAINT Emit
 CHECK_DEADLOCK FALSE
